@@ -58,7 +58,7 @@ def gen_plan(seed: int, tier: str) -> dict:
     r = random.Random(seed)
     driver = r.choice(["pipe-ip"] * 5 + ["pipe-ble"] * 3 + ["resume"] * 3 + ["ip"] + ["ble-link"] * 2 + ["coap"] * 2)
     mut = r.choice(RESUME_MUTS) if driver == "resume" else r.choice(MUTS)
-    return {"driver": driver, "mut": mut, "mseed": r.randrange(10**9), "acc_id": ":".join(f"{r.randrange(256):02X}" for _ in range(6)), "ops": []}
+    return {"driver": driver, "mut": mut, "mseed": r.randrange(10**9), "acc_id": (lambda mac: r.choice([mac, mac, mac.lower(), mac[:8] + mac[8:].lower(), "Bridge %d" % r.randrange(100)]))(":".join(f"{r.randrange(256):02X}" for _ in range(6))), "ops": []}
 
 
 def build_mut(kind, r: random.Random, ch: Chooser, rec_m2=None):
